@@ -1027,8 +1027,14 @@ impl<R: Read> RdbReader<R> {
     /// Read string
     fn read_string(&mut self) -> Result<Vec<u8>> {
         let len = self.read_length()?;
-        let mut buf = vec![0u8; len];
-        self.read_exact(&mut buf)?;
+        // Do not size an allocation by a length field of the file: read through a limited reader,
+        // so that the buffer only grows with the bytes that are really there
+        let mut buf = Vec::new();
+        let got = (&mut self.reader).take(len as u64).read_to_end(&mut buf)
+            .map_err(|e| FerrousError::Io(e.to_string()))?;
+        if got != len {
+            return Err(FerrousError::Io("failed to fill whole buffer".to_string()));
+        }
         Ok(buf)
     }
     
